@@ -21,14 +21,14 @@ MatchOk(it, e) == /\ it.ok /\ it.path = e.path /\ it.method = e.method
                   /\ KeysOK(it.resp, e.resp) /\ KeysOK(it.props, e.props)
                   /\ (e.date # "" => it.date = <<"str", e.date>>)        \* ... and date-like scalars are not dates
 Match(it, e, viaIter) == IF e.ok THEN MatchOk(it, e) ELSE ~it.ok /\ (viaIter => it.path = e.path)
-About(it, t) == it.path = PathOf(t) /\ it.method \in {MethodOf(t), ""}
+About(it, d, t) == it.path = PathOf(d, t) /\ it.method \in {MethodOf(t), ""}
 AccessOK(d, a, judged, o) ==
     /\ o.depth = 0                                     \* the resolver's scope stack is back where it was
     /\ judged =>
          IF a.k = "iter"
-         THEN /\ \A t \in Targets : LET ab == {x \in 1..Len(o.items) : About(o.items[x], t)} IN
+         THEN /\ \A t \in Ops(d) : LET ab == {x \in 1..Len(o.items) : About(o.items[x], d, t)} IN
                                       Cardinality(ab) = 1 /\ \A x \in ab : Match(o.items[x], Outcome(d, t), TRUE)
-              /\ \A x \in 1..Len(o.items) : \E t \in Targets : About(o.items[x], t)
+              /\ \A x \in 1..Len(o.items) : \E t \in Ops(d) : About(o.items[x], d, t)
          ELSE Len(o.items) = 1 /\ Match(o.items[1], Outcome(d, a.t), FALSE)
 Report == \A j \in 1..Len(hist) :
             IF AccessOK(doc, hist[j], Obs[i].judged[j], Obs[i].obs[j]) THEN TRUE ELSE PrintT(<<"DISAGREE", i, j>>)
